@@ -1,5 +1,494 @@
-"""World hooks: semantics of the few library data structures the code uses (installed per twin)."""
+"""World hooks: semantics of the library data structures the packet store is built from (dict of dict of Queue),
+and the spec functions the store contracts use.  Installed per twin.
+
+Representation: `_dict : arg1 -> (arg0 -> Queue)` is a VDict2 = (has1, has, q) of z3 arrays:
+    has1[k1]            outer key present
+    has[k1][k0]         inner key present (meaningful when has1[k1])
+    q[k1][k0]           the queue content, a Seq(Pkt), FIFO: head at index 0
+Library axioms used (trusted base): dict membership / get / set / del / truthiness; iteration of .items()/.values()
+visits every present item (order not modelled: `next(genexp, None)` is an existential choice); asyncio.Queue is an
+unbounded FIFO with empty / put_nowait / get_nowait.
+"""
+import ast
+import z3
+
+from pyvc.values import *      # noqa
+from pyvc.values import Unsupported
+from pyvc.symexec import RaiseSig
+from pyvc import world as W
+from pyvc.world import Pkt, PktSeq, VCtx, SPEC_FUNCS, BUILTINS, METHODS
+
+BoolArr = z3.ArraySort(IntS, BoolS)
+QArr = z3.ArraySort(IntS, PktSeq)
+
+
+class Ref(V):
+    """An l-value inside the store's dict: owner object + field, and the keys applied so far."""
+    kind = 'ref'
+
+    def __init__(self, owner, field, k1=None, k0=None):
+        self.owner, self.field, self.k1, self.k0 = owner, field, k1, k0
+
+    @property
+    def d(self):
+        return self.owner.fields[self.field]
+
+
+def present(d, k0, k1):
+    return z3.And(z3.Select(d.has1, k1), z3.Select(z3.Select(d.has, k1), k0))
+
+
+def view(d, k0, k1):
+    return z3.If(present(d, k0, k1), z3.Select(z3.Select(d.q, k1), k0), z3.Empty(PktSeq))
+
+
+def empty_dict2():
+    return VDict2(z3.K(IntS, z3.BoolVal(False)), z3.K(IntS, z3.K(IntS, z3.BoolVal(False))), z3.K(IntS, z3.K(IntS, z3.Empty(PktSeq))))
+
+
+def key_int(ex, v, what):
+    if isinstance(v, VOpt):
+        v = ex.nonnull(v, what)
+    if isinstance(v, VNone):
+        # None is hashable: `None in d` is simply False for a dict with int keys; `d[None]` is a KeyError
+        return None
+    if not isinstance(v, (VInt, VBool)):
+        raise Unsupported('store key %r' % (v,))
+    return to_int(v)
 
 
 def install(world):
-    pass
+    world.use_store = True
+
+    def object_field_ref(ex, node):
+        """`self._dict` evaluated as an l-value reference when the field holds a dict2."""
+        if isinstance(node, ast.Attribute):
+            base = ex.eval(node.value)
+            if isinstance(base, VObj) and isinstance(base.fields.get(node.attr), VDict2):
+                return Ref(base, node.attr)
+        return None
+
+    def subscript_load(w, ex, base, node):
+        if isinstance(base, VDict2):
+            ref = object_field_ref(ex, node.value)
+            if ref is None:
+                raise Unsupported('dict2 value without a home')
+            w.use('dict')
+            k1 = key_int(ex, ex.eval(node.slice), 'dict key')
+            if k1 is None or not ex.branch(z3.Select(base.has1, k1)):
+                raise RaiseSig(VExc('KeyError'))
+            return Ref(ref.owner, ref.field, k1)
+        if isinstance(base, Ref) and base.k1 is not None and base.k0 is None:
+            w.use('dict')
+            k0 = key_int(ex, ex.eval(node.slice), 'dict key')
+            d = base.d
+            if k0 is None or not ex.branch(z3.Select(z3.Select(d.has, base.k1), k0)):
+                raise RaiseSig(VExc('KeyError'))
+            return Ref(base.owner, base.field, base.k1, k0)
+        return NotImplemented
+
+    def subscript_store(w, ex, base, target, v):
+        w.use('dict')
+        if isinstance(base, VDict2):
+            ref = object_field_ref(ex, target.value)
+            k1 = key_int(ex, ex.eval(target.slice), 'dict key')
+            if not isinstance(v, DictLit) or len(v.items) != 1:
+                raise Unsupported('store of %r into the outer dict' % (v,))
+            (k0v, qv), = v.items
+            k0 = key_int(ex, k0v, 'dict key')
+            if not isinstance(qv, VQueue):
+                raise Unsupported('inner dict value %r' % (qv,))
+            d = base
+            inner_has = z3.Store(z3.K(IntS, z3.BoolVal(False)), k0, z3.BoolVal(True))
+            inner_q = z3.Store(z3.Select(d.q, k1), k0, qv.items)
+            ref.owner.fields[ref.field] = VDict2(z3.Store(d.has1, k1, z3.BoolVal(True)), z3.Store(d.has, k1, inner_has), z3.Store(d.q, k1, inner_q))
+            return None
+        if isinstance(base, Ref) and base.k1 is not None and base.k0 is None:
+            k0 = key_int(ex, ex.eval(target.slice), 'dict key')
+            if not isinstance(v, VQueue):
+                raise Unsupported('inner dict value %r' % (v,))
+            d = base.d
+            base.owner.fields[base.field] = VDict2(d.has1, z3.Store(d.has, base.k1, z3.Store(z3.Select(d.has, base.k1), k0, z3.BoolVal(True))),
+                                                   z3.Store(d.q, base.k1, z3.Store(z3.Select(d.q, base.k1), k0, v.items)))
+            return None
+        return NotImplemented
+
+    def subscript_delete(w, ex, base, target):
+        w.use('dict')
+        if isinstance(base, VDict2):
+            ref = object_field_ref(ex, target.value)
+            k1 = key_int(ex, ex.eval(target.slice), 'dict key')
+            if k1 is None or not ex.branch(z3.Select(base.has1, k1)):
+                raise RaiseSig(VExc('KeyError'))
+            ref.owner.fields[ref.field] = VDict2(z3.Store(base.has1, k1, z3.BoolVal(False)), base.has, base.q)
+            return None
+        if isinstance(base, Ref) and base.k1 is not None and base.k0 is None:
+            k0 = key_int(ex, ex.eval(target.slice), 'dict key')
+            d = base.d
+            if k0 is None or not ex.branch(z3.Select(z3.Select(d.has, base.k1), k0)):
+                raise RaiseSig(VExc('KeyError'))
+            base.owner.fields[base.field] = VDict2(d.has1, z3.Store(d.has, base.k1, z3.Store(z3.Select(d.has, base.k1), k0, z3.BoolVal(False))), d.q)
+            return None
+        return NotImplemented
+
+    def contains(w, ex, coll, x):
+        w.use('dict')
+        if isinstance(coll, VDict2):
+            k = key_int(ex, x, 'dict key')
+            return z3.BoolVal(False) if k is None else z3.Select(coll.has1, k)
+        if isinstance(coll, Ref) and coll.k1 is not None and coll.k0 is None:
+            k = key_int(ex, x, 'dict key')
+            return z3.BoolVal(False) if k is None else z3.Select(z3.Select(coll.d.has, coll.k1), k)
+        return NotImplemented
+
+    world.hooks['subscript_load'] = subscript_load
+    world.hooks['subscript_store'] = subscript_store
+    world.hooks['subscript_delete'] = subscript_delete
+    world.hooks['contains'] = contains
+    world.hooks['genexp_reduce'] = genexp_reduce
+
+
+class DictLit(V):
+    kind = 'dictlit'
+
+    def __init__(self, items):
+        self.items = items
+
+
+# --- truthiness of refs (an inner dict) -------------------------------------------------------------
+_base_truth = truth
+
+
+def _truth(v):
+    if isinstance(v, Ref):
+        if v.k1 is not None and v.k0 is None:
+            k = z3.Int('__k0')
+            return z3.Exists([k], z3.Select(z3.Select(v.d.has, v.k1), k))
+        if v.k0 is not None:
+            return z3.BoolVal(True)
+    if isinstance(v, DictLit):
+        return z3.BoolVal(len(v.items) > 0)
+    return _base_truth(v)
+
+
+import pyvc.values as _values     # noqa: E402
+import pyvc.symexec as _symexec   # noqa: E402
+import pyvc.world as _world       # noqa: E402
+_values.truth = _truth
+_symexec.truth = _truth
+_world.truth = _truth
+
+
+# --- Queue methods on references --------------------------------------------------------------------------
+
+def _items(ref):
+    return z3.Select(z3.Select(ref.d.q, ref.k1), ref.k0)
+
+
+def _set_items(ref, items):
+    d = ref.d
+    ref.owner.fields[ref.field] = VDict2(d.has1, d.has, z3.Store(d.q, ref.k1, z3.Store(z3.Select(d.q, ref.k1), ref.k0, items)))
+
+
+def m_q_empty(w, ex, base, args, kwargs, node):
+    w.use('Queue')
+    if isinstance(base, VQueue):
+        return VBool(z3.Length(base.items) == 0)
+    return VBool(z3.Length(_items(base)) == 0)
+
+
+def m_q_put(w, ex, base, args, kwargs, node):
+    w.use('Queue')
+    (item,) = args
+    if not (isinstance(item, VTuple) and len(item.items) == 2 and all(isinstance(x, VBytes) for x in item.items)):
+        raise Unsupported('queue item %r' % (item,))
+    p = Pkt.pkt(item.items[0].term, item.items[1].term)
+    _set_items(base, z3.Concat(_items(base), z3.Unit(p)))
+    return NONE
+
+
+def m_q_get(w, ex, base, args, kwargs, node):
+    w.use('Queue')
+    items = _items(base)
+    if not ex.branch(z3.Length(items) > 0):
+        raise RaiseSig(VExc('asyncio.QueueEmpty'))
+    head = items[0]
+    _set_items(base, z3.SubSeq(items, 1, z3.Length(items) - 1))
+    return VTuple([VBytes(Pkt.cmd(head), False), VBytes(Pkt.data(head), False)])
+
+
+METHODS[('Ref', 'empty')] = m_q_empty
+METHODS[('Ref', 'put_nowait')] = m_q_put
+METHODS[('Ref', 'get_nowait')] = m_q_get
+METHODS[('VQueue', 'empty')] = m_q_empty
+
+
+def m_items(w, ex, base, args, kwargs, node):
+    return Iter('items', base)
+
+
+def m_values(w, ex, base, args, kwargs, node):
+    return Iter('values', base)
+
+
+class Iter(V):
+    kind = 'iter'
+
+    def __init__(self, how, base):
+        self.how, self.base = how, base
+
+
+METHODS[('VDict2', 'items')] = m_items
+METHODS[('VDict2', 'values')] = m_values
+METHODS[('Ref', 'items')] = m_items
+METHODS[('Ref', 'values')] = m_values
+
+
+# --- dict literals -----------------------------------------------------------------------------------
+
+def ex_Dict(self, node):
+    if not node.keys:
+        return empty_dict2()
+    return DictLit([(self.eval(k), self.eval(v)) for k, v in zip(node.keys, node.values)])
+
+
+_symexec.Executor.ex_Dict = ex_Dict
+
+
+# --- next(genexp, default) / sum(genexp) over the store's dict ---------------------------------------------
+
+def genexp_reduce(w, ex, node):
+    """next((elt for k1, v1 in D.items() for k0, v0 in v1.items() if cond), default)
+       -> existential choice: some present item satisfying cond, or default if none does.
+       sum(elt for v1 in D.values() for v0 in v1.values())  -> count(), an uninterpreted cardinality of the
+       characteristic predicate (extensional: equal predicates have equal counts)."""
+    w.use('next')
+    kind = node.func.id
+    ge = node.args[0]
+    saved_env = dict(ex.env)
+    home = None
+    witnesses = []
+    conds = []
+    try:
+        for comp in ge.generators:
+            it = ex.eval(comp.iter)
+            if not isinstance(it, Iter):
+                raise Unsupported('genexp over %r' % (it,))
+            base = it.base
+            if isinstance(base, VDict2):
+                ref = None
+                # find the home of this dict: the iterated expression is `<obj>.<field>.items()`
+                fnode = comp.iter.func.value
+                o = ex.eval(fnode.value)
+                ref = Ref(o, fnode.attr)
+                k1 = z3.Int(ex.fresh_name('key1'))
+                witnesses.append(k1)
+                conds.append(z3.Select(base.has1, k1))
+                val = Ref(ref.owner, ref.field, k1)
+                bind_target(ex, comp.target, it.how, VInt(k1), val)
+            elif isinstance(base, Ref) and base.k1 is not None and base.k0 is None:
+                k0 = z3.Int(ex.fresh_name('key0'))
+                witnesses.append(k0)
+                conds.append(z3.Select(z3.Select(base.d.has, base.k1), k0))
+                val = Ref(base.owner, base.field, base.k1, k0)
+                bind_target(ex, comp.target, it.how, VInt(k0), val)
+            else:
+                raise Unsupported('genexp over %r' % (base,))
+            for c in comp.ifs:
+                saved_mode = ex.mode
+                ex.mode = 'spec'          # conditions are pure: evaluate without forking
+                try:
+                    conds.append(truth(ex.eval(c)))
+                finally:
+                    ex.mode = saved_mode
+        saved_mode = ex.mode
+        ex.mode = 'spec'
+        try:
+            elt = ex.eval(ge.elt)
+        finally:
+            ex.mode = saved_mode
+    finally:
+        ex.env = saved_env
+    cond = z3.And(*conds) if conds else z3.BoolVal(True)
+    if kind == 'next':
+        default = ex.eval(node.args[1]) if len(node.args) > 1 else None
+        if ex.choose('next-found'):
+            ex.assume(cond)
+            return elt
+        ex.assume(z3.ForAll(witnesses, z3.Not(cond)))
+        if default is None:
+            raise RaiseSig(VExc('StopIteration'))
+        return default
+    # sum of truth values over the items = number of items whose element is true
+    w.use('sum')
+    pred = z3.And(cond, truth(elt))
+    if len(witnesses) != 2:
+        raise Unsupported('sum over %d nested iterations' % len(witnesses))
+    lam = z3.Lambda(witnesses, pred)
+    return VInt(COUNT2(lam))
+
+
+COUNT2 = z3.Function('count2', z3.ArraySort(IntS, IntS, BoolS), IntS)
+
+
+def bind_target(ex, target, how, key, val):
+    if how == 'items':
+        if isinstance(target, ast.Tuple) and len(target.elts) == 2:
+            ex.assign(target.elts[0], key)
+            ex.assign(target.elts[1], val)
+        else:
+            raise Unsupported('items() target')
+    else:
+        ex.assign(target, val)
+
+
+# --- spec functions over the abstract view of the store -----------------------------------------------------
+
+def _store_of(v):
+    if isinstance(v, VObj):
+        v = v.fields['_dict']
+    if not isinstance(v, VDict2):
+        raise Unsupported('not a store: %r' % (v,))
+    return v
+
+
+def sp_present(w, ex, node):
+    s, a0, a1 = [ex.eval(a) for a in node.args]
+    return VBool(present(_store_of(s), to_int(a0), to_int(a1)))
+
+
+def sp_pending(w, ex, node):
+    s, a0, a1 = [ex.eval(a) for a in node.args]
+    d = _store_of(s)
+    return VBool(z3.And(present(d, to_int(a0), to_int(a1)), z3.Length(view(d, to_int(a0), to_int(a1))) > 0))
+
+
+class VPktSeq(V):
+    kind = 'pktseq'
+
+    def __init__(self, term):
+        self.term = term
+
+
+def sp_view(w, ex, node):
+    s, a0, a1 = [ex.eval(a) for a in node.args]
+    return VPktSeq(view(_store_of(s), to_int(a0), to_int(a1)))
+
+
+def sp_pkt(w, ex, node):
+    c, d = [ex.eval(a) for a in node.args]
+    return VPktSeq(z3.Unit(Pkt.pkt(c.term, d.term)))
+
+
+def sp_qcat(w, ex, node):
+    a, b = [ex.eval(a) for a in node.args]
+    return VPktSeq(z3.Concat(a.term, b.term))
+
+
+def sp_qlen(w, ex, node):
+    (a,) = [ex.eval(a) for a in node.args]
+    return VInt(z3.Length(a.term))
+
+
+def sp_qhead_cmd(w, ex, node):
+    (a,) = [ex.eval(a) for a in node.args]
+    return VBytes(Pkt.cmd(a.term[0]), False)
+
+
+def sp_qhead_data(w, ex, node):
+    (a,) = [ex.eval(a) for a in node.args]
+    return VBytes(Pkt.data(a.term[0]), False)
+
+
+def sp_qtail(w, ex, node):
+    (a,) = [ex.eval(a) for a in node.args]
+    return VPktSeq(z3.SubSeq(a.term, 1, z3.Length(a.term) - 1))
+
+
+def sp_qeq(w, ex, node):
+    a, b = [ex.eval(a) for a in node.args]
+    return VBool(a.term == b.term)
+
+
+def sp_others_unchanged(w, ex, node):
+    """others_unchanged(old_store, new_store, a0, a1): every key other than (a0, a1) has the same presence and view."""
+    so, sn, a0, a1 = [ex.eval(a) for a in node.args]
+    do, dn = _store_of(so), _store_of(sn)
+    x0, x1 = z3.Int('__x0'), z3.Int('__x1')
+    body = z3.Implies(z3.Not(z3.And(x0 == to_int(a0), x1 == to_int(a1))),
+                      z3.And(present(dn, x0, x1) == present(do, x0, x1), view(dn, x0, x1) == view(do, x0, x1)))
+    return VBool(z3.ForAll([x0, x1], body))
+
+
+def sp_all_unchanged(w, ex, node):
+    so, sn = [ex.eval(a) for a in node.args]
+    do, dn = _store_of(so), _store_of(sn)
+    x0, x1 = z3.Int('__x0'), z3.Int('__x1')
+    return VBool(z3.ForAll([x0, x1], z3.And(present(dn, x0, x1) == present(do, x0, x1), view(dn, x0, x1) == view(do, x0, x1))))
+
+
+def sp_none_present(w, ex, node):
+    (s,) = [ex.eval(a) for a in node.args]
+    d = _store_of(s)
+    x0, x1 = z3.Int('__x0'), z3.Int('__x1')
+    return VBool(z3.ForAll([x0, x1], z3.Not(present(d, x0, x1))))
+
+
+def _pat(d, a0, a1, zeros0=False, zeros1=False):
+    """exists a pending key matching the pattern (a0, a1), None = wildcard"""
+    x0, x1 = z3.Int('__x0'), z3.Int('__x1')
+    n0, v0 = as_opt(a0)
+    n1, v1 = as_opt(a1)
+    m0 = z3.Or(n0, x0 == to_int(v0)) if v0 is not None else z3.BoolVal(True)
+    m1 = z3.Or(n1, x1 == to_int(v1)) if v1 is not None else z3.BoolVal(True)
+    return x0, x1, z3.And(m0, m1, present(d, x0, x1), z3.Length(view(d, x0, x1)) > 0)
+
+
+def sp_exists_pending(w, ex, node):
+    """exists_pending(store, a0, a1): some key matching (a0, a1) (None = wildcard) has a pending packet."""
+    s, a0, a1 = [ex.eval(a) for a in node.args]
+    x0, x1, body = _pat(_store_of(s), a0, a1)
+    return VBool(z3.Exists([x0, x1], body))
+
+
+def sp_matches_pat(w, ex, node):
+    """matches_pat(k0, k1, a0, a1): key (k0,k1) matches the pattern (None = wildcard)"""
+    k0, k1, a0, a1 = [ex.eval(a) for a in node.args]
+    n0, v0 = as_opt(a0)
+    n1, v1 = as_opt(a1)
+    m0 = z3.Or(n0, to_int(k0) == to_int(v0)) if v0 is not None else z3.BoolVal(True)
+    m1 = z3.Or(n1, to_int(k1) == to_int(v1)) if v1 is not None else z3.BoolVal(True)
+    return VBool(z3.And(m0, m1))
+
+
+def sp_count_pending(w, ex, node):
+    (s,) = [ex.eval(a) for a in node.args]
+    d = _store_of(s)
+    x1, x0 = z3.Int('__c1'), z3.Int('__c0')
+    lam = z3.Lambda([x1, x0], z3.And(present(d, x0, x1), z3.Length(view(d, x0, x1)) > 0))
+    return VInt(COUNT2(lam))
+
+
+SPEC_FUNCS.update({
+    'present': sp_present, 'pending': sp_pending, 'view': sp_view, 'pkt': sp_pkt, 'qcat': sp_qcat, 'qlen': sp_qlen,
+    'qhead_cmd': sp_qhead_cmd, 'qhead_data': sp_qhead_data, 'qtail': sp_qtail, 'qeq': sp_qeq,
+    'others_unchanged': sp_others_unchanged, 'all_unchanged': sp_all_unchanged, 'none_present': sp_none_present,
+    'exists_pending': sp_exists_pending, 'matches_pat': sp_matches_pat, 'count_pending': sp_count_pending,
+})
+
+
+def sp_count_is(w, ex, node):
+    """count_is(n, store): n is the number of pending pairs.  When n is itself a count over a characteristic predicate
+    (the sum of `not q.empty()` over the items), the claim is the extensional equality of the two predicates."""
+    n, s = [ex.eval(a) for a in node.args]
+    d = _store_of(s)
+    t = n.term
+    x1, x0 = z3.Int('__c1'), z3.Int('__c0')
+    spec_pred = z3.And(present(d, x0, x1), z3.Length(view(d, x0, x1)) > 0)
+    if z3.is_app(t) and t.decl().name() == 'count2':
+        lam = t.arg(0)
+        return VBool(z3.ForAll([x1, x0], z3.Select(lam, x1, x0) == spec_pred))
+    return VBool(t == COUNT2(z3.Lambda([x1, x0], spec_pred)))
+
+
+SPEC_FUNCS['count_is'] = sp_count_is
